@@ -136,6 +136,10 @@ MUTANTS = [
     ("p1_alias_constant", "bempp_cl/api/space/scalar_spaces.py", "local2global_final[element_index, local_index] = max_dof", "local2global_final[element_index, local_index] = 0", 0, ["C16", "C09"]),
     # ---- algebra / solvers / io / state
     ("product_operand_order", "bempp_cl/api/assembly/boundary_operator.py", "return self._op1.weak_form() * self._op2.strong_form()", "return self._op2.weak_form() * self._op1.strong_form()", 0, ["C14"]),
+    ("gf_add_projection_space", "bempp_cl/api/assembly/grid_function.py", "                    projections=self.projections() + other.projections(),\n                    dual_space=self.dual_space,", "                    projections=self.projections() + other.projections(),\n                    dual_space=self.space,", 0, ["C14"]),
+    ("gf_add_drops_other", "bempp_cl/api/assembly/grid_function.py", "return GridFunction(self.space, coefficients=self.coefficients + other.coefficients)", "return GridFunction(self.space, coefficients=self.coefficients + self.coefficients)", 0, ["C14"]),
+    ("gf_mul_dual_coefficients", "bempp_cl/api/assembly/grid_function.py", "                    projections=alpha * self._projections,\n                    dual_space=self.dual_space,", "                    projections=alpha * self.coefficients,\n                    dual_space=self.dual_space,", 0, ["C14"]),
+    ("gf_div_inverted", "bempp_cl/api/assembly/grid_function.py", "return self * (1.0 / alpha)", "return self * (alpha / 1.0)", 0, ["C14"]),
     ("blocked_product_order", "bempp_cl/api/assembly/blocked_operator.py", "return self._op1.weak_form() * self._op2.strong_form()", "return self._op2.weak_form() * self._op1.strong_form()", 0, ["C14"]),
     ("blocked_product_domain", "bempp_cl/api/assembly/blocked_operator.py", "return tuple(self._op2.domain_spaces)", "return tuple(self._op1.domain_spaces)", 0, ["C14"]),
     ("blocked_strong_form_spaces", "bempp_cl/api/assembly/blocked_operator.py", "                    self.range_spaces[index], self.dual_to_range_spaces[index]\n", "                    self.dual_to_range_spaces[index], self.range_spaces[index]\n", 0, ["C14"]),
